@@ -58,12 +58,13 @@ type Node struct {
 }
 
 type Net struct {
-	Nodes  []*Node
-	Soup   []Msg
-	Adj    [][]bool
-	byAddr map[string]int
-	cancel context.CancelFunc
-	Ctx    context.Context
+	Nodes   []*Node
+	Soup    []Msg
+	Relayed []Msg // streams opened for anything but route requests / responses (relay hand-overs)
+	Adj     [][]bool
+	byAddr  map[string]int
+	cancel  context.CancelFunc
+	Ctx     context.Context
 }
 
 // capture stream: collects what the service writes; reading returns EOF (the services
@@ -147,6 +148,10 @@ func (n *Net) flush() []Msg {
 			continue
 		}
 		m := Msg{From: s.from, To: s.to, Stream: s.name, Data: data}
+		if s.name != "onRouteReq" && s.name != "onRouteResp" {
+			n.Relayed = append(n.Relayed, m)
+			continue
+		}
 		out = append(out, m)
 	}
 	n.Soup = append(n.Soup, out...)
@@ -279,6 +284,19 @@ func (n *Net) StartFind(i, target int) ([]int, []Msg) {
 	}
 	return ix, n.flush()
 }
+
+// PendingOut is the number of streams opened since the last flush.
+func (n *Net) PendingOut() int {
+	pendingOut.mu.Lock()
+	defer pendingOut.mu.Unlock()
+	return len(pendingOut.l)
+}
+
+// RelayHandler returns node i's real handler of the given relay stream.
+func (n *Net) RelayHandler(i int, name string) p2p.HandlerFunc { return n.handler(i, name) }
+
+// NewInStream wraps bytes as the stream a handler reads from.
+func NewInStream(data []byte) p2p.Stream { return &inStream{r: bytes.NewReader(data)} }
 
 // Flush exposes flush for callers that invoke service methods themselves (FindRoute).
 func (n *Net) Flush() []Msg { return n.flush() }
